@@ -533,8 +533,9 @@ def alpha_map(fn):
 
 def anorm(node, fn=None):
     """Normalised text with the locals of the enclosing function replaced by
-    positional placeholders (L1, L2, ... in order of first binding), so that a
-    consistent renaming of locals does not change the text."""
+    placeholders numbered by first appearance *inside the node* (L1, L2, ...),
+    so that neither a consistent renaming of locals nor a local introduced
+    elsewhere in the function changes the text."""
     if fn is None:
         fn = node if isinstance(node, (ast.FunctionDef, ast.AsyncFunctionDef)) \
             else enclosing_function(node)
@@ -545,23 +546,35 @@ def anorm(node, fn=None):
             fn = nxt
     if fn is None:
         return norm(node)
-    mapping = alpha_map(fn)
-    if not mapping:
+    locals_ = set(alpha_map(fn))
+    if not locals_:
         return norm(node)
+    mapping = {}
+
+    def placeholder(name):
+        if name not in mapping:
+            mapping[name] = 'L%d' % (len(mapping) + 1)
+        return mapping[name]
 
     def clone(n):
+        # depth-first in field order = order of appearance in the source
         if isinstance(n, ast.AST):
             new = type(n)()
+            done = set()
+            if isinstance(n, (ast.ListComp, ast.SetComp, ast.GeneratorExp, ast.DictComp)):
+                # generators are read before the element expression
+                new.generators = clone(n.generators)
+                done.add('generators')
             for field in n._fields:
-                if hasattr(n, field):
+                if hasattr(n, field) and field not in done:
                     setattr(new, field, clone(getattr(n, field)))
             for attr in n._attributes:
                 if hasattr(n, attr):
                     setattr(new, attr, getattr(n, attr))
-            if isinstance(new, ast.Name) and new.id in mapping:
-                new.id = mapping[new.id]
-            if isinstance(new, ast.ExceptHandler) and new.name in mapping:
-                new.name = mapping[new.name]
+            if isinstance(new, ast.Name) and new.id in locals_:
+                new.id = placeholder(new.id)
+            if isinstance(new, ast.ExceptHandler) and new.name in locals_:
+                new.name = placeholder(new.name)
             return new
         if isinstance(n, list):
             return [clone(x) for x in n]
